@@ -197,6 +197,8 @@ func ClassifyLanguage(filename string) Language {
 // commentStyle returns the language's comment style.
 func (lang Language) commentStyle() style {
 	switch lang {
+	case AppleScript:
+		return applescript
 	case Assembly, C, CSharp, Dart, Flex, GLSLF, Go, Java, JavaScript, Kotlin, ObjectiveC, Rust, Shader, Swift, SWIG, TypeScript, Yacc, Verilog, SystemVerilog, SDF, SPEF:
 		return bcpl
 	case Batch:
